@@ -24,7 +24,7 @@ CHECKS = {
              "terminates), the run terminates, the verdict equals solvability by an independent Robinson unifier, the result is a most "
              "general unifier. Every system is then replayed through the real InferenceSet/union-find and verdict plus reduced tags "
              "(up to renaming) are compared. Program level: verdict and error class of the real compiler under permutations of "
-             "declarations and consistent renamings. Bounded, not a proof.",
+             "declarations and consistent renamings. Bounded, not a proof. Added since: program level also over the Arity and RecPair families, RecGraphs(2)/RecInst and seeded random composites with Kinds.tla in oracle mode; renaming of single binders (alpha-conversion) besides consistent renaming.",
         note="Trusted: TLC, the tag translation, hook H2 re-exports. Bounds in spec/mc/Unify_*.cfg.",
         technique="TLA+ state machine of the union-find unifier vs reference Robinson unifier (TLC, all systems up to a bound) + per-system replay into the real unifier",
     ),
@@ -36,7 +36,7 @@ CHECKS = {
              "verdict a function of the import sets. Every graph is rendered to module texts (canonical and aliased relative spellings) "
              "and loaded by the real module::load with a recording loader: exact call sequences and verdict must match, the compile "
              "order must be one the specification allows. Recorded call sequences of family graphs and of larger random graphs are "
-             "validated as behaviours by LoaderTrace.tla with every invariant checked on every state. Bounded, not a proof.",
+             "validated as behaviours by LoaderTrace.tla with every invariant checked on every state. Bounded, not a proof. Added since: half of the aliased renderings spread the modules over sub-directories with spellings relative to the importing module.",
         note="Trusted: TLC, the rendering of graphs to `use` statements, the recording in-memory Loader. Which error is reported when several are present is not compared.",
         technique="TLA+ state machine of module::load (TLC, all import graphs up to 4 modules) + spec->impl replay of every graph + impl->spec trace validation of recorded loader calls",
     ),
@@ -47,7 +47,7 @@ CHECKS = {
              "schemas) combined with programs with and without paths and schemas: Frame, FromProgram, FrameAlways, Terminates. The "
              "abstract pairs are realised as concrete YAML bases and Oxlip programs, merged by the real Builder and by the real "
              "oal-cli --base, abstracted back field by field and compared with the specification's output record; Frame/FromProgram are "
-             "also evaluated directly on the concrete documents. Bounded, not a proof.",
+             "also evaluated directly on the concrete documents. Bounded, not a proof. Added since: a program whose operations carry tags, summaries, operationIds and descriptions.",
         note="Trusted: TLC, the realisation of abstract field values, the field-wise abstraction of documents. Absent and empty are identified; bases are in the OpenAPI object model's normal form.",
         technique="TLA+ model of the base merge (TLC, all abstract bases x programs) + spec->impl replay through Builder and oal-cli with field-wise abstraction",
     ),
@@ -61,7 +61,7 @@ CHECKS = {
              "exactly by the model (validating the transcription), and the property's own predicates - cached = uncached, reads <= "
              "40 x (n+1) - are evaluated on the real runs. Real runs on the repository corpus, token-level mutants, nests to depth 200 "
              "and sequences of thousands of tokens are judged by TLC in oracle mode (n <= 60) and against the linear bound (all n). "
-             "Bounded, not a proof.",
+             "Bounded, not a proof. Added since: every self-embedding construct nested (not only brackets), long flat prefixes followed/preceded by nests, family members with postfix operators, and sentences of the grammar enumerated by derivation depth (driver/sentences.py) - all through the real cached/uncached parser and, when short, TLC's oracle mode.",
         note="Trusted: TLC, the transcription of parser.rs (validated by exact agreement on every member), hook H1 counters. Disagreement of "
              "the model with the code on counters/trees that the property does not state is reported as MODEL-DRIFT, not as a violation.",
         technique="TLA+ interpreter of the memoizing PEG engine with the grammar as data (TLC, all token sequences of 7 families) + exact spec->impl replay (tree and counters) + impl->spec oracle validation",
@@ -85,7 +85,7 @@ CHECKS = {
              "token-level mutants of the repository corpus, arbitrary Unicode strings and nests to depth 200 go through "
              "tokenizer+parser, the full pipeline and oal_wasm::compile in process and, for a sample, through the real oal-cli and "
              "oal-lsp; any panic, abort, stack overflow, hang or server exit is a violation; recorded outcomes are validated by TLC "
-             "against the totality monitor of FrontendsTrace.tla.",
+             "against the totality monitor of FrontendsTrace.tla. Added since: the postfix operators inserted after every syntax node of every PosShape/FnPos member (exhaustive), other tokens at node boundaries (sampled), every opener nested with the error at the bottom.",
         note="Trusted: TLC, the process runner (timeouts: 20 s in process, 60 s binaries). The byte-level behaviour of the logos lexer is observed, not modelled; the input space is sampled (seeded), only the token-sequence families are exhaustive (C12).",
         technique="termination invariants model-checked in the TLA+ specs of unifier/parser/loader + trace validation of observed front-end outcomes against Frontends.tla over generated and mutated inputs",
     ),
@@ -98,7 +98,7 @@ CHECKS = {
              "run through the real oal-cli under 8 configurations (options/config file x base/no base x target absent/present with "
              "sentinel), oal_wasm::compile and the real oal-lsp; TLC infers the hidden class from the recorded observations "
              "(FrontendsTrace.tla): a source is accepted iff one class explains all observations and equals the predicted class where "
-             "one is known; CLI and playground documents are compared byte for byte.",
+             "one is known; CLI and playground documents are compared byte for byte. Added since: configuration modes options / config file / both (the file then names decoy main, target and base; Setting() and DecoyUntouched in Frontends.tla, pinned self-test), 12 CLI configurations; the two language-server cycles on the same sources must give the same verdict.",
         note="Trusted: TLC, the process runners, the criterion for a located diagnostic (stderr names a source module by URL). The class space is small and the model simple; the weight of this check is in the observations of the real binaries.",
         technique="TLA+ model of the front-end outcomes with a hidden source class (TLC) + trace validation of observed oal-cli / playground / oal-lsp runs with class inference",
     ),
@@ -126,7 +126,7 @@ CHECKS = {
              "configuration keeps the pinned single root scope, where TLC itself finds the declaration/import collision. Every member "
              "is rendered in four trivia styles and resolved by the real resolve(): error class or complete binding table (every "
              "Variable's definition mapped back through the source map) must equal the specification's; for members the real compiler "
-             "accepts, marker properties in the evaluated document show that evaluation used the value of the chosen binder.",
+             "accepts, marker properties in the evaluated document show that evaluation used the value of the chosen binder. Added since: use sites after a rec, uses placed after the declarations, module g importing h under the same qualifier; every accepted member's evaluated document is compared with Den.tla's denotation (oracle mode); the DynScope family (caller binder named like a callee parameter); seeded random composites with shadowing, binding tables from ResolveMC.tla in oracle mode.",
         note="Trusted: TLC, renderer and source map (cross-checked by tree2ast), hook H2. Two unqualified imports of the same name are outside the domain.",
         technique="TLA+ state machine of name resolution vs declarative binding relation (TLC, Scopes family) + spec->impl replay comparing complete binding tables and evaluated markers",
     ),
@@ -137,7 +137,7 @@ CHECKS = {
              "(multi-byte comments, CRLF), the real oal-lsp is asked definition and references at every UTF-16 position of every loaded "
              "module, including positions past the end of lines; answers must be exactly the locations the binding relation gives "
              "through the renderer's source map, empty elsewhere, and every returned reference must resolve back to the binder on the "
-             "real server.",
+             "real server. Added since: imported modules in sub-directories for odd rendering styles, the extended Scopes family (see C08), a stratified sample that always keeps members with shadowed binders.",
         note="Trusted: TLC, renderer/source map, the JSON-RPC client, the Python position arithmetic (independent of unicode.rs). Sampled members in the quick tier.",
         technique="binding relation model-checked in TLA+ (TLC) as oracle + exhaustive per-position replay of definition/references on the real oal-lsp",
     ),
@@ -147,7 +147,7 @@ CHECKS = {
              "(binder identifier plus every bound use in any loaded module; for a qualifier: the import's qualifier plus every qualified "
              "use in that module). For accepted members the real oal-lsp is asked prepareRename at every UTF-16 position and rename "
              "with a fresh name for every offered identifier: the server must stay alive, edits must not overlap and must equal the "
-             "expected set, and the edited sources compiled by the real compiler must be accepted and give the same document.",
+             "expected set, and the edited sources compiled by the real compiler must be accepted and give the same document. Added since: as C17; the edited sources are compiled at the same relative locations.",
         note="Trusted: TLC, renderer/source map, JSON-RPC client, client-side edit application. @reference names are not in this family yet.",
         technique="binding relation model-checked in TLA+ (TLC) as oracle + replay of prepareRename/rename on the real oal-lsp with compilation of the edited sources",
     ),
@@ -160,8 +160,8 @@ CHECKS = {
              "cast with which variant; TLC evaluates Sound = accepted => no crash on each. Every member is rendered and run through "
              "the real load/compile/eval/emit: the predicted outcome class and crash site must be the real ones (4200 members agree "
              "exactly, including the 150 crashes the model predicts), and any panic/abort/hang of an accepted program is a violation "
-             "of the property, matched against KNOWN_FINDINGS.json by (cast site, variant, context).",
-        note="Trusted: TLC, renderer. Four genuine defects are recorded as known findings (headers with a join/sum of objects, ranges as a transfer domain, imported functions not re-checked per application); each needs a language-level decision rather than a local patch.",
+             "of the property, matched against KNOWN_FINDINGS.json by (cast site, variant, context). Added since: the Arity, RecPair, RecGraphs(2) and RecInst families, shapes for sums of URIs/relations and numbers outside the status domain (a located error, modelled in EvalAbs.tla), and seeded random composite programs judged by EvalAbs.tla in oracle mode (file mode: one TLC initial state per program).",
+        note="Trusted: TLC, renderer. Six genuine defects are recorded as known findings (headers with a join/sum of objects, ranges as a transfer domain, sums of URIs/relations where a URI/relation is consumed, imported functions not re-checked per application); each needs a language-level decision rather than a local patch.",
         technique="TLA+ reference kind checker + abstract interpreter of the evaluator with casts as guards (TLC over position x shape x indirection families) + exact spec->impl replay of outcome class and crash site",
     ),
     "C06": dict(
@@ -172,7 +172,7 @@ CHECKS = {
              "the nondeterminism itself. The binding is observational: directed programs that put 2-5 entries into each collection "
              "(examples at three levels, references, ranges, methods, rec in functions, imported modules) and accepted corpus programs "
              "are compiled by 8 (quick) / 48 (thorough) fresh oal-cli processes and three times in one process after unrelated "
-             "compilations; all YAML texts must be byte-identical and examples must appear in source order.",
+             "compilations; all YAML texts must be byte-identical and examples must appear in source order. Added since: the last three runs of every program see a shifted wall clock (LD_PRELOAD shim driver/faketime.c), repeated in-process compilations run on threads of their own, Determinism.tla carries the ambient state (prior compilations, clock) with AmbientFree and two more pinned self-tests; directed programs are asserted to be accepted (a rejected one is a tool error).",
         note="Trusted: TLC, the process runner. Hash seeds are observed over N processes, not modelled; the model is small and mainly records which collections must be ordered.",
         technique="TLA+ model of iteration disciplines of the output-path collections (TLC) + multi-process / repeated in-process byte comparison of the real compiler's output",
     ),
@@ -185,7 +185,7 @@ CHECKS = {
              "pipeline (the predicted collisions are exactly the real ones) and an independent validator checks every emitted document - "
              "of the pairs, of every accepted member of the position/shape families, recursion shapes, corpus, determinism programs, and "
              "of documents merged with a base - for $ref closure, path variable/parameter bijection, response keys, unique "
-             "operationIds; YAML round-trip equality is evaluated on the OpenAPI object model.",
+             "operationIds; YAML round-trip equality is evaluated on the OpenAPI object model. Added since: documents of the Uris/Xfers/Ranges/Schemas/RecInst families and of seeded random composites are validated too, whatever outcome the specification predicts; round-trip equality is judged on documents (JSON), not on Rust values.",
         note="Trusted: TLC, renderer, the Python validator. One genuine defect (synthesized operationIds collide) is a recorded known finding.",
         technique="TLA+ model of reference inlining/registration, path keys and operationId synthesis (TLC over URI pairs) + independent structural validation of every emitted document",
     ),
@@ -198,7 +198,7 @@ CHECKS = {
              "rewritten on the abstract syntax (3 trivia styles, permutation of declarations, consistent renaming, parenthesise all / "
              "one expression, name-with-let, inline-let, wrap-in-function, move-to-module, and the family's own indirections); original "
              "and rewritten program are compiled: the rewritten one must be accepted and emit the same document up to generated "
-             "component names (hash-named components unfolded).",
+             "component names (hash-named components unfolded). Added since: rewrites abstract-subterm (beta-expansion) and rename-one-binder (alpha-conversion of a single binder); subjects RecInst, DynScope, Annots (annotated values, with every order of statements for the shared-recursive-declaration members) and seeded random composites.",
         note="Trusted: TLC, renderer (cross-checked by tree2ast), the rewrite implementations with their side conditions, absdoc.canon. Renaming of @reference names and @let introduction are not meaning-preserving and are excluded.",
         technique="TLA+ invariance of predicted outcomes under indirection (TLC) + metamorphic replay of AST rewrites on the real compiler with documents compared up to generated names",
     ),
@@ -212,7 +212,7 @@ CHECKS = {
              "family (rec expressions inside functions applied 1-3 times, nested, imported, rec in rec, explicit and mutual references). "
              "Every member is compiled by the real pipeline: rejection of uncuttable cycles, is_recursive flags, termination, number of "
              "components (distinct instantiations distinct, one instantiation once), closure, no component that is only a reference "
-             "cycle; the real evaluator's event stream (hook H3) is validated event by event against EvalOp.tla's.",
+             "cycle; the real evaluator's event stream (hook H3) is validated event by event against EvalOp.tla's. Added since: kind `rel` in RecGraphs, more RecInst templates (nested functions with two arguments, equal file names in two directories), seeded random composites judged by EvalOp.tla in oracle mode (outcome, flags, components, event stream).",
         note="Trusted: TLC, renderer, hooks H2/H3. One genuine defect (a kinded alias cycle is accepted and emitted as a self-referential $ref) is a recorded known finding.",
         technique="TLA+ state machine of cycles_check (TLC, all graphs) + TLA+ stateful evaluator over recursion families (TLC) + spec->impl replay with trace validation of evaluator events",
     ),
@@ -225,8 +225,8 @@ CHECKS = {
              "TLC evaluates it on every member of eight families that the kind checker model accepts (about 3 000 accepted programs). "
              "Each is rendered (renderer cross-checked by tree2ast), compiled by the real pipeline, and the emitted document - "
              "abstracted into the same shape with implicit components unfolded to the same depth - must equal the denotation; "
-             "differences are classified (response-missing, operation-missing, schema differs, ...).",
-        note="Trusted: TLC, renderer, the Python abstraction of documents. Annotations are outside the fragment. One defect found was fixed (default response media types), one is a recorded known finding (two resources with one path).",
+             "differences are classified (response-missing, operation-missing, schema differs, ...). Added since: annotations have a denotation in Den.tla (flow through terms, declarations, parameters, applications, rec unfoldings; placement per construct) and are compared key by key; families Annots (with a pinned variant, ParamPrecedence = use, that classifies the one open precedence finding exactly), DynScope, same-file-name modules; seeded random composite programs, half of them annotated, judged by Den.tla in oracle mode.",
+        note="Trusted: TLC, renderer, the Python abstraction of documents. Annotations are part of the denotation. Three defects found were fixed (default response media types, response headers per status, shared recursive declarations annotated by their first use); open known findings: two resources with one path, annotation precedence through function parameters.",
         technique="independent TLA+ reference semantics (denotation by unfolding) evaluated by TLC over program families + comparison with the abstraction of the real emitted document",
     ),
 }
